@@ -46,10 +46,11 @@ Theorem C01_dispatch_exact : forall ms w i w' x,
 Proof. exact dispatch_held. Qed.
 Print Assumptions C01_dispatch_exact.
 
-(** The marketplace never sends anything to itself. *)
-Theorem C01_recipients_are_others : forall o e sender fs m s s' out,
-  execute o e sender fs m s = Ok (s', out) -> sender <> self e -> oracle_clean o (self e) ->
-  Forall (recipient_ok (self e)) out.
+(** No message of a response goes to an account [me] that is neither the sender nor a registered
+    payout address — in particular the marketplace never sends anything to itself. *)
+Theorem C01_recipients_are_others : forall me o e sender fs m s s' out,
+  execute o e sender fs m s = Ok (s', out) -> sender <> me -> oracle_clean o me ->
+  Forall (recipient_ok me) out.
 Proof. exact execute_recipients. Qed.
 Print Assumptions C01_recipients_are_others.
 
